@@ -255,6 +255,12 @@ Everywhere(i) == \/ \E d \in Dest : i \in ToSet(Flat(d)) \cup ToSet(s.q[d])
                  \/ \E k \in 1..Len(s.dropped) : s.dropped[k][1] = i
 NoLoss == ~s.stopped => \A i \in 1..nitems : Everywhere(i)
 
+\* queued datapoints of a connected, unpaused destination always have a send scheduled (otherwise
+\* nothing would ever transmit them)
+SendScheduledS(st) == \A d \in Dest :
+   (st.cs[d] = "connected" /\ st.pconn[d] /\ ~st.tp[d] /\ st.q[d] # <<>>) => st.st[d]
+SendScheduled == SendScheduledS(s)
+
 (* C09, relay side *)
 Quiescent == /\ \A d \in Dest : ~s.st[d] /\ ~s.rt[d]
              /\ \A d \in Dest : s.cs[d] = "connected" => (s.pconn[d] /\ ~s.tp[d])
